@@ -684,3 +684,163 @@ Proof.
     pose proof (sval_as_uval w (S k) a Ha) as E. pose proof (uval_bounds w _ _ ltac:(lia) Ha).
     destruct (Z.leb_spec (Mod w (S k) / 2) (uval w a)); cbn [b2z] in E; lia.
 Qed.
+
+(* ================= 8. midpoint ================= *)
+
+Lemma U_shr_1 dbg w x : 1 < bits w (length x) ->
+  U_shr dbg w x 1 = Ret (shr_pad_internal w false x 1).
+Proof.
+  intros H. unfold U_shr, U_strict_shr, U_checked_shr, U_wrapping_shr, U_overflowing_shr, option_expect.
+  destruct (Z.leb_spec (bits w (length x)) 1); [lia|]. destruct dbg; reflexivity.
+Qed.
+
+Lemma I_shr_1 dbg w x : 1 < bits w (length x) ->
+  I_shr dbg w x 1 = Ret (shr_pad_internal w (is_negative w x) x 1).
+Proof.
+  intros H. unfold I_shr, I_strict_shr, I_checked_shr, I_wrapping_shr, I_overflowing_shr,
+    tuple_to_option, option_expect.
+  destruct (Z.leb_spec (bits w (length x)) 1); [lia|]. destruct dbg; reflexivity.
+Qed.
+
+Lemma bits_gt_1 w n : 2 <= w -> (0 < n)%nat -> 1 < bits w n.
+Proof. intros. unfold bits. nia. Qed.
+
+Lemma half_sum L X : (2 * L + X) / 2 = L + X / 2.
+Proof. rewrite Z.add_comm, (Z.mul_comm 2 L), Z.div_add by lia. ring. Qed.
+
+Theorem U_midpoint_ok dbg w n a b : 2 <= w -> (0 < n)%nat -> wf w n a -> wf w n b ->
+  exists r, U_midpoint dbg w a b = Ret r /\ wf w n r /\ uval w r = (uval w a + uval w b) / 2.
+Proof.
+  intros Hw Hn Ha Hb. unfold U_midpoint.
+  pose proof (bitxor_wf w n a b ltac:(lia) Ha Hb) as Hx.
+  pose proof (bitand_wf w n a b ltac:(lia) Ha Hb) as Hl.
+  rewrite U_shr_1 by (rewrite (wf_length _ _ _ Hx); apply bits_gt_1; assumption).
+  cbn [obind].
+  destruct (shr1_false w n (bitxor a b) Hw Hx) as [Hh Hhv].
+  set (h := shr_pad_internal w false (bitxor a b) 1) in *.
+  pose proof (U_add_projections w (bitand a b) h dbg) as HP.
+  pose proof (U_overflowing_add_ok w n (bitand a b) h ltac:(lia) Hl Hh) as HO.
+  destruct (U_overflowing_add w (bitand a b) h) as [r f].
+  destruct HP as (_ & _ & _ & HP). destruct HO as (Hr & Hv & Hf).
+  rewrite Hhv, (uval_bitand w n), (uval_bitxor w n) in Hv, Hf by (assumption || lia).
+  pose proof (add_land_lxor (uval w a) (uval w b)) as E.
+  pose proof (uval_bounds w _ _ ltac:(lia) Ha). pose proof (uval_bounds w _ _ ltac:(lia) Hb).
+  rewrite E, half_sum.
+  set (L := Z.land (uval w a) (uval w b)) in *. set (X := Z.lxor (uval w a) (uval w b)) in *.
+  pose proof (uval_bounds w _ _ ltac:(lia) Hl) as BL. rewrite (uval_bitand w n) in BL by (assumption || lia). fold L in BL.
+  pose proof (uval_bounds w _ _ ltac:(lia) Hx) as BX. rewrite (uval_bitxor w n) in BX by (assumption || lia). fold X in BX.
+  assert (0 <= L + X / 2 < Mod w n).
+  { rewrite <- half_sum. split; [apply Z.div_pos; lia | apply Z.div_lt_upper_bound; lia]. }
+  assert (Ef : f = false) by (rewrite Hf; apply Z.leb_gt; lia). clear Hf. subst f.
+  exists r. split; [exact HP|]. split; [exact Hr|]. rewrite Hv. apply Z.mod_small. assumption.
+Qed.
+
+Lemma Mod_pow w n : Mod w n = 2 ^ (bits w n).
+Proof. reflexivity. Qed.
+
+Lemma Mod_half_pow w k : 0 < w -> Mod w (S k) / 2 = 2 ^ (bits w (S k) - 1).
+Proof.
+  intros Hw. rewrite Mod_pow. rewrite (pow2_half (bits w (S k))) by (unfold bits; nia).
+  rewrite Z.mul_comm. apply Z.div_mul. lia.
+Qed.
+
+Lemma sval_testbit w k a : 0 < w -> wf w (S k) a ->
+  sval w a = uval w a - Mod w (S k) * b2z (Z.testbit (uval w a) (bits w (S k) - 1)).
+Proof.
+  intros Hw Ha. rewrite (sval_as_uval w (S k) a Ha). rewrite Mod_half_pow by assumption.
+  rewrite testbit_top; [reflexivity | unfold bits; nia |].
+  rewrite <- Mod_pow. apply uval_bounds; [lia | assumption].
+Qed.
+
+Lemma sval_land_lxor w k a b : 0 < w -> wf w (S k) a -> wf w (S k) b ->
+  sval w a + sval w b = 2 * sval w (bitand a b) + sval w (bitxor a b).
+Proof.
+  intros Hw Ha Hb.
+  pose proof (bitxor_wf w _ a b ltac:(lia) Ha Hb) as Hx.
+  pose proof (bitand_wf w _ a b ltac:(lia) Ha Hb) as Hl.
+  rewrite (sval_testbit w k a Hw Ha), (sval_testbit w k b Hw Hb), (sval_testbit w k _ Hw Hl), (sval_testbit w k _ Hw Hx).
+  rewrite (uval_bitand w (S k)), (uval_bitxor w (S k)) by (assumption || lia).
+  rewrite Z.land_spec, Z.lxor_spec.
+  pose proof (add_land_lxor (uval w a) (uval w b)).
+  destruct (Z.testbit (uval w a) _), (Z.testbit (uval w b) _); cbn [b2z andb xorb]; lia.
+Qed.
+
+Lemma shr1_signed w k x : 2 <= w -> wf w (S k) x ->
+  wf w (S k) (shr_pad_internal w (is_negative w x) x 1) /\
+  sval w (shr_pad_internal w (is_negative w x) x 1) = sval w x / 2.
+Proof.
+  intros Hw Hx. rewrite (is_negative_uval w k x ltac:(lia) Hx).
+  pose proof (uval_bounds w _ _ ltac:(lia) Hx) as BX.
+  pose proof (Mod_even' w k ltac:(lia)) as HE.
+  rewrite (sval_as_uval w (S k) x Hx).
+  destruct (Z.leb_spec (Mod w (S k) / 2) (uval w x)); cbn [b2z].
+  - destruct (shr1_true w (S k) x Hw ltac:(lia) Hx) as [Hh Hv]. split; [exact Hh|].
+    rewrite (sval_of_uval_big w (S k) _ Hh) by (rewrite Hv; assert (0 <= uval w x / 2) by (apply Z.div_pos; lia); lia).
+    rewrite Hv. set (h := Mod w (S k) / 2) in *.
+    replace (uval w x - Mod w (S k) * 1) with (uval w x + (- h) * 2) by lia.
+    rewrite Z.div_add by lia. lia.
+  - destruct (shr1_false w (S k) x Hw Hx) as [Hh Hv]. split; [exact Hh|].
+    rewrite Z.mul_0_r, Z.sub_0_r.
+    assert (uval w x / 2 < Mod w (S k) / 2) by (apply Z.div_lt_upper_bound; lia).
+    rewrite (sval_of_uval_small w (S k) _ Hh) by (rewrite Hv; assumption). exact Hv.
+Qed.
+
+Lemma quot2_floor S : Z.quot S 2 = if (S / 2 <? 0) && Z.odd S then S / 2 + 1 else S / 2.
+Proof.
+  rewrite Zodd_mod.
+  destruct (Z.ltb_spec (S / 2) 0); destruct (Zeq_bool (S mod 2) 1) eqn:E; cbn [andb];
+    [apply Zeq_bool_eq in E | apply Zeq_bool_neq in E | |];
+    Z.to_euclidean_division_equations; lia.
+Qed.
+
+Theorem I_midpoint_ok dbg w n a b : 2 <= w -> (0 < n)%nat -> wf w n a -> wf w n b ->
+  exists r, I_midpoint dbg w a b = Ret r /\ wf w n r /\ sval w r = Z.quot (sval w a + sval w b) 2.
+Proof.
+  intros Hw Hn Ha Hb. destruct n as [|k]; [lia|]. unfold I_midpoint.
+  assert (Hw' : 0 < w) by lia.
+  pose proof (bitxor_wf w _ a b ltac:(lia) Ha Hb) as Hx.
+  pose proof (bitand_wf w _ a b ltac:(lia) Ha Hb) as Hl.
+  pose proof (bits_gt_1 w (S k) Hw ltac:(lia)) as Hbits.
+  rewrite I_shr_1 by (rewrite (wf_length _ _ _ Hx); assumption).
+  cbn [obind].
+  destruct (shr1_signed w k (bitxor a b) Hw Hx) as [Hh Hhv].
+  set (h := shr_pad_internal w (is_negative w (bitxor a b)) (bitxor a b) 1) in *.
+  pose proof (sval_land_lxor w k a b Hw' Ha Hb) as E.
+  pose proof (sval_range w (S k) a Hw' ltac:(lia) Ha) as RA.
+  pose proof (sval_range w (S k) b Hw' ltac:(lia) Hb) as RB.
+  pose proof (Mod_even' w k Hw') as HE. pose proof (Mod_pos w (S k) ltac:(lia)) as HM.
+  set (M := Mod w (S k)) in *. set (Sm := sval w a + sval w b) in *.
+  assert (HT : - (M / 2) <= Sm / 2 < M / 2).
+  { split; [apply Z.div_le_lower_bound; lia | apply Z.div_lt_upper_bound; lia]. }
+  (* first add: never overflows *)
+  pose proof (I_add_projections w (S k) (bitand a b) h dbg Hw' ltac:(lia) Hl Hh) as HP.
+  pose proof (I_overflowing_add_ok w (S k) (bitand a b) h Hw' ltac:(lia) Hl Hh) as HO.
+  destruct (I_overflowing_add w (bitand a b) h) as [t f].
+  destruct HP as (_ & _ & _ & HP). destruct HO as (Ht & Hv & Hf).
+  fold M in Hv, Hf. rewrite Hhv, <- half_sum, <- E in Hv, Hf.
+  rewrite (negb_inS_false M (Sm / 2) HE HT) in Hf. subst f.
+  rewrite wrapS_id in Hv by assumption.
+  rewrite HP. cbn [obind].
+  (* the rounding fix-up *)
+  rewrite (is_negative_spec w k t Hw' Ht), Hv.
+  rewrite (hd_odd w (S k) _ Hw' Hx).
+  assert (HO : Z.odd (uval w (bitxor a b)) = Z.odd Sm).
+  { rewrite E.
+    rewrite (sval_as_uval w (S k) _ Hx). fold M.
+    set (c := b2z (M / 2 <=? uval w (bitxor a b))).
+    replace (2 * sval w (bitand a b) + (uval w (bitxor a b) - M * c))
+      with (uval w (bitxor a b) + 2 * (sval w (bitand a b) - (M / 2) * c)) by lia.
+    rewrite Z.odd_add_mul_2. reflexivity. }
+  rewrite HO, (wf_length _ _ _ Ha). rewrite quot2_floor.
+  destruct ((Sm / 2 <? 0) && Z.odd Sm) eqn:C.
+  - apply andb_true_iff in C. destruct C as [C1 C2]. apply Z.ltb_lt in C1.
+    pose proof (I_add_projections w (S k) t (ONE (S k)) dbg Hw' ltac:(lia) Ht (ONE_wf w _ Hw')) as HP2.
+    pose proof (I_overflowing_add_ok w (S k) t (ONE (S k)) Hw' ltac:(lia) Ht (ONE_wf w _ Hw')) as HO2.
+    destruct (I_overflowing_add w t (ONE (S k))) as [t2 f2].
+    destruct HP2 as (_ & _ & _ & HP2). destruct HO2 as (Ht2 & Hv2 & Hf2).
+    fold M in Hv2, Hf2. rewrite (ONE_sval w k Hw' Hbits), Hv in Hv2, Hf2.
+    rewrite (negb_inS_false M (Sm / 2 + 1) HE ltac:(lia)) in Hf2. subst f2.
+    rewrite wrapS_id in Hv2 by lia.
+    exists t2. split; [exact HP2|]. split; assumption.
+  - exists t. split; [reflexivity|]. split; assumption.
+Qed.
